@@ -561,6 +561,10 @@ class MessageManager(ClientLike):
 
         for n in range(len(subscribers)):
             module = subscribers[n]
+            # Skip modules that were removed while an earlier send failure
+            # in this loop was being handled (their connection is closed).
+            if self.modules.get(module.conn) is not module:
+                continue
             if module.conn in self.wlist:
                 try:
                     if (
@@ -611,7 +615,10 @@ class MessageManager(ClientLike):
             header (MessageHeader): Message header to send
             payload (Union[bytes, MessageData]): Message data to send
         """
-        for module in self.logger_modules:
+        # Iterate over a copy: remove_module() edits logger_modules on a send failure
+        for module in list(self.logger_modules):
+            if self.modules.get(module.conn) is not module:
+                continue
             if module.conn not in self.wlist:
                 # Block until logger is ready
                 select.select([], [module.conn], [], None)
